@@ -28,7 +28,7 @@ def gen_session_script(rng, rotations=True):
             ops.append('cw %d %d %d %s' % (next_w, cap, rng.choice([0, next_w, 77]), G.rand_bytes(rng, 4, b'abw').hex() or '-'))
             writers[next_w] = 0
             next_w += 1
-        elif k < 16 or nsrc == 0:
+        elif k < 16 or (nsrc == 0 and k < 62):
             ops.append('src %d %s %s %s %d %s %s' % (rng.choice(G.SEVERITIES), G.rand_bytes(rng, 3, b'cat').hex() or '-',
                        G.rand_bytes(rng, 4, b'fn_').hex() or '-', b'f.cpp'.hex(), rng.randrange(200), b'm {}'.hex(), b'I'.hex()))
             nsrc += 1
